@@ -189,6 +189,10 @@ pub enum Layer {
     Value,
     /// the rarely used opposite of `Tours`: fitness = -(number of tours)
     MaxTours,
+    /// second instances of three layers under other names: goals with more than six layers (one quote component each)
+    Unassigned2,
+    Tours2,
+    Value2,
 }
 
 impl Layer {
@@ -200,6 +204,9 @@ impl Layer {
             Layer::Cost => "minimize-cost",
             Layer::Value => "maximize-value",
             Layer::MaxTours => "maximize-tours",
+            Layer::Unassigned2 => "minimize-unassigned-2",
+            Layer::Tours2 => "minimize-tours-2",
+            Layer::Value2 => "maximize-value-2",
         }
     }
 }
@@ -478,12 +485,12 @@ fn build_goal(spec: &MicroSpec, transport: Arc<SimpleTransportCost>) -> Result<v
                 .set_transport_cost(transport.clone())
         };
         let feature = match layer {
-            Layer::Unassigned => MinimizeUnassignedBuilder::new(layer.name()).build(),
-            Layer::Tours => create_minimize_tours_feature(layer.name()),
+            Layer::Unassigned | Layer::Unassigned2 => MinimizeUnassignedBuilder::new(layer.name()).build(),
+            Layer::Tours | Layer::Tours2 => create_minimize_tours_feature(layer.name()),
             Layer::MaxTours => create_maximize_tours_feature(layer.name()),
             Layer::Distance => tfb().build_minimize_distance(),
             Layer::Cost => tfb().build_minimize_cost(),
-            Layer::Value => create_maximize_total_job_value_feature(
+            Layer::Value | Layer::Value2 => create_maximize_total_job_value_feature(
                 layer.name(),
                 JobReadValueFn::Left(Arc::new(|job: &Job| job.dimens().get_value::<JobValueKey, f64>().copied().unwrap_or(0.))),
                 Arc::new(|job, _| job),
